@@ -197,9 +197,30 @@ class Gen:
             lines += ["VAR CONSTANT", "  %s : INT := 3;" % shadow, "END_VAR"]
             info["shadow"] = shadow
         allv = ins + outs + locs
+        # a character string local; the last statements of the block assign a string and an enumeration value (what the
+        # resolution of one declaration knows about the type of its last assignment target must not reach the next one)
+        sv = None
+        if r.random() < 0.5:
+            sv = self.names.fresh("s")
+            k = next(j for j, l in enumerate(lines) if l == "VAR")
+            lines.insert(k + 1, "  %s : STRING;" % sv)
         body = self.stmts([v for v, t in allv if t == "INT"], [v for v, t in allv if t == "BOOL"], calls)
+        bools = [v for v, t in allv if t == "BOOL"]
+        ints = [v for v, t in allv if t == "INT" and (v, t) not in ins]
+        head = []
+        if bools and ints and r.random() < 0.6:
+            head = ["  IF %s THEN" % r.choice(bools), "    %s := 1;" % r.choice(ints), "  END_IF;"]
+        tail = []
+        if "enum_var" in info and r.random() < 0.6:
+            ev, en = info["enum_var"]
+            e = next(x for x in enums if x.name == en)
+            tail.append("  %s := %s;" % (ev, r.choice(e.info["values"])))
+        if sv is not None:
+            tail.append("  %s := 'hello';" % sv)
+            if r.random() < 0.5:
+                tail.reverse()
         info["body_start"] = len(lines)
-        lines += body + ["END_FUNCTION_BLOCK"]
+        lines += head + body + tail + ["END_FUNCTION_BLOCK"]
         return Decl("fb", n, lines, info)
 
     def fb_calls(self, inst, callee, ints, bools):
